@@ -55,7 +55,7 @@ func genSetOp(t *rapid.T) op {
 // opGroup draws one op (or a short burst). Lists are built with rapid.SliceOfN so that rapid can
 // shrink a failing history by deleting elements.
 func opGroup(nmsg int, withCleanup, withInject bool) *rapid.Generator[[]op] {
-	kinds := []string{"observe", "observe", "loopback", "loopback", "gossip", "gossip", "gossip", "gossip", "gossipvalid", "gossipvalid", "gossipvalid", "gossipvalid", "inbound", "inbound", "set", "quorumrun", "quorumrun", "settle", "replay"}
+	kinds := []string{"observe", "observe", "loopback", "loopback", "gossip", "gossip", "gossip", "gossip", "gossipvalid", "gossipvalid", "gossipvalid", "gossipvalid", "inbound", "inbound", "set", "quorumrun", "quorumrun", "settle", "replay", "rotate-before-observe"}
 	if withCleanup {
 		kinds = append(kinds, "cleanup")
 	}
@@ -101,6 +101,15 @@ func opGroup(nmsg int, withCleanup, withInject bool) *rapid.Generator[[]op] {
 			return []op{genSetOp(t)}
 		case "settle":
 			return []op{{K: "settle"}}
+		case "rotate-before-observe": // peers signed before the node saw the message; the set is replaced; members of the new set sign; then the node observes
+			m := rapid.IntRange(0, nmsg-1).Draw(t, "m")
+			size := rapid.IntRange(2, 5).Draw(t, "size")
+			off := rapid.SampledFrom([]int{1, 2, 30}).Draw(t, "off")
+			out := []op{{K: "gossip", A: m, B: 1, C: 0}, {K: "gossip", A: m, B: 2, C: 0}, {K: "set", A: size, B: off, C: 0, D: 1}}
+			for j := 0; j < size; j++ {
+				out = append(out, op{K: "gossip", A: m, B: 1 + off + j, C: 0})
+			}
+			return append(out, op{K: "observe", A: m}, op{K: "loopback", A: 0})
 		case "replay": // a member's genuine observation of one message, then its signature again under another message's digest
 			m := rapid.IntRange(0, nmsg-1).Draw(t, "m")
 			sgn := rapid.IntRange(0, 6).Draw(t, "signer")
@@ -332,7 +341,7 @@ func TestVerif_C04_Processor(t *testing.T) {
 		nmsg := rapid.IntRange(1, 3).Draw(t, "nmsg")
 		msgs := genMsgs(t, nmsg, false)
 		for i := range msgs {
-			b := vh.GenBody(t, "b", 1, 2000)
+			b := vh.GenBody(t, "b", 0, 2000, 0, 1) // a message may be published without any payload
 			msgs[i].Nonce, msgs[i].CL, msgs[i].TC, msgs[i].PLen, msgs[i].PSeed = b.Nonce, b.CL, b.TC, b.PLen, b.PSeed
 			if rapid.Bool().Draw(t, "fullseq") {
 				msgs[i].Seq = b.Seq
